@@ -2,8 +2,8 @@
 // Extract unit: default methods of trait TrackerAPI (src/trackers/tracker_api.rs), pasted verbatim.
 // Why extract: the trait is generic over the F-bounded TrackAttributes, which Verus cannot load.
 // Hand-written shim: TrackStore is an opaque type whose per-shard counts are a spec function
-// `counts()`; `shard_stats()` is assumed to return them (its own text is a loop over the shard
-// mutexes: see unit store_c09); the RwLock guards hand out the store they guard (`view()`);
+// `counts()`; `shard_stats()` returns them (one count per shard, the size of that shard: proved on its
+// real body in unit store_map_c09, C09); the RwLock guards hand out the store they guard (`view()`);
 // the six required accessor methods of the trait are re-declared with `ensures` tying each guard
 // to the spec fns main_view() / wasted_view() / auto_waste_view() (assumed: an implementor returns
 // its main store from get_main_store, etc.). The struct AutoWaste is pasted verbatim.
